@@ -590,7 +590,12 @@ def run(rep, tier, seed):
             a, b = py.get(cid, 'MISSING-PY'), rs.get(cid, 'MISSING-RS')
             c, d = pm.get(cid, 'MISSING-PM'), rm.get(cid, 'MISSING-RM')
             if a != b:
-                tape_bad.append((cid, start, ops))
+                if b.startswith('PANIC') and d == b:
+                    # Rust's u64 arithmetic overflows (e.g. marks() of blocks around 2^62, C12's big-count start tapes) and
+                    # the Rust MODEL says so too: a declared limit of the Rust side, outside this property's quantifier
+                    dist['tape_streams_outside (rust u64 overflow, modelled)'] = dist.get('tape_streams_outside (rust u64 overflow, modelled)', 0) + 1
+                else:
+                    tape_bad.append((cid, start, ops))
             if a != c:
                 diffs.append((cid, f'pytape|h|{start}|{ops[:300]}', a, c, 'tm.tape.Tape.step (real) = PyTapeModel.py_step'))
             if b != d:
